@@ -253,9 +253,14 @@ def structured(case, keys, certs):
     return out
 
 
+SDK_VARIANTS = [(23,), (24,), (18, 30), (1,), (23, 24), ()]
+
+
 def run_case(ctx, mon, APK, case, kind, p7, sf, expect_cert=None, detail=None):
     """one execution of the real code under the monitor. expect_cert: DER that must be returned (unaltered input) or None (only the postcondition applies)"""
     raw = case.apk(p7, sf)
+    if not hasattr(ctx, "ev_count_for_variants"):
+        ctx.ev_count_for_variants = 0
     ctx.ev()
     ctx.count("cases_" + ("valid" if expect_cert is not None else kind.split("@")[0]))
     label = case.label()
@@ -277,6 +282,19 @@ def run_case(ctx, mon, APK, case, kind, p7, sf, expect_cert=None, detail=None):
     except Exception:
         pass  # counted by the monitor; "nothing reported"
     state = mon.last
+    # the same question through the optional max_sdk_version argument (it only relaxes the contentType requirement below API 24; the statement
+    # holds for every value): judged by the monitor's postcondition; on unaltered input the answer must not change either
+    for sdk in SDK_VARIANTS[ctx.ev_count_for_variants % len(SDK_VARIANTS)]:
+        ctx.count("get_certificate_der_calls_with_max_sdk_version")
+        try:
+            g2 = a.get_certificate_der(case.signame, max_sdk_version=sdk)
+        except Exception:
+            g2 = None
+        if expect_cert is not None and got is not None and (g2 is None or bytes(g2) != bytes(got)):
+            ctx.violation("valid-signature-answer-changes-with-max-sdk-version-%s" % label,
+                          "get_certificate_der(name, max_sdk_version=N) answers differently from get_certificate_der(name) on an unaltered, verifying block",
+                          W(max_sdk_version=sdk, got=None if g2 is None else bytes(g2)))
+    ctx.ev_count_for_variants += 1
     if expect_cert is None and (kind.startswith("sf-byte") or kind.startswith("signature-byte")):
         pass
     else:
